@@ -30,6 +30,7 @@ def c3(ctx):
 def c5(ctx):
     convert.global_tables_immutable(ctx)
     convert.purity(ctx)
+    convert.convert_sequence(ctx)
     convert.warps_first(ctx, 'ssc_to_sm')
     convert.ssc_target_tables(ctx, 'ssc_to_sm')
 
